@@ -102,27 +102,46 @@ Qed.
 (* mask / remask / decrypt are CP_Verify behind membership tests *)
 Theorem mask_accept_iff H G m c1 c2 c r :
   mask_verify H G m c1 c2 c r = Accept <->
-  check_element G c1 = true /\ check_element G c2 = true /\
+  check_element G m = true /\ check_element G c1 = true /\ check_element G c2 = true /\
   exists mi, invm m (gp G) = Some mi /\ cp_verify H G c1 ((mi * c2) mod gp G) (gg G) (gh G) c r true = Accept.
 Proof.
   unfold mask_verify. split.
-  - destruct (check_element G c1); [|discriminate]. destruct (check_element G c2); [|discriminate]. cbn [andb negb].
+  - destruct (check_element G m); [|discriminate]. destruct (check_element G c1); [|discriminate].
+    destruct (check_element G c2); [|discriminate]. cbn [andb negb].
     destruct (invm m (gp G)) as [mi|]; [|discriminate]. intros A. repeat split. now exists mi.
-  - intros (A & B & mi & C & D). now rewrite A, B, C.
+  - intros (A0 & A & B & mi & C & D). now rewrite A0, A, B, C.
 Qed.
 
 Theorem remask_accept_iff H G c1 c2 d1 d2 c r :
   remask_verify H G c1 c2 d1 d2 c r = Accept <->
-  check_element G d1 = true /\ check_element G d2 = true /\
+  check_element G c1 = true /\ check_element G c2 = true /\ check_element G d1 = true /\ check_element G d2 = true /\
   exists i1 i2, invm c1 (gp G) = Some i1 /\ invm c2 (gp G) = Some i2 /\
     cp_verify H G ((i1 * d1) mod gp G) ((i2 * d2) mod gp G) (gg G) (gh G) c r true = Accept.
 Proof.
   unfold remask_verify. split.
-  - destruct (check_element G d1); [|discriminate]. destruct (check_element G d2); [|discriminate]. cbn [andb negb].
+  - destruct (check_element G c1); [|discriminate]. destruct (check_element G c2); [|discriminate].
+    destruct (check_element G d1); [|discriminate]. destruct (check_element G d2); [|discriminate]. cbn [andb negb].
     destruct (invm c1 (gp G)) as [i1|]; [|discriminate]. destruct (invm c2 (gp G)) as [i2|]; [|discriminate].
     intros A. repeat split. now exists i1, i2.
-  - intros (A & B & i1 & i2 & C & D & E). now rewrite A, B, C, D.
+  - intros (A0 & A1 & A & B & i1 & i2 & C & D & E). now rewrite A0, A1, A, B, C, D.
 Qed.
+
+Lemma check_element_member G a : check_element G a = true -> 0 < a < gp G /\ powm a (gq G) (gp G) = 1.
+Proof.
+  unfold check_element. intros E. apply andb_true_iff in E. destruct E as [E E3].
+  apply andb_true_iff in E. destruct E as [E1 E2]. apply Z.ltb_lt in E1, E2. apply Z.eqb_eq in E3. lia.
+Qed.
+
+(* membership rules: every group element the statement speaks about lies in (0,p) and in the order-q subgroup *)
+Corollary mask_member_rules H G m c1 c2 c r : mask_verify H G m c1 c2 c r = Accept ->
+  (0 < m < gp G /\ powm m (gq G) (gp G) = 1) /\ (0 < c1 < gp G /\ powm c1 (gq G) (gp G) = 1) /\
+  (0 < c2 < gp G /\ powm c2 (gq G) (gp G) = 1).
+Proof. intros A. apply mask_accept_iff in A. destruct A as (A & B & C & _). split; [|split]; now apply check_element_member. Qed.
+
+Corollary remask_member_rules H G c1 c2 d1 d2 c r : remask_verify H G c1 c2 d1 d2 c r = Accept ->
+  (0 < c1 < gp G /\ powm c1 (gq G) (gp G) = 1) /\ (0 < c2 < gp G /\ powm c2 (gq G) (gp G) = 1) /\
+  (0 < d1 < gp G /\ powm d1 (gq G) (gp G) = 1) /\ (0 < d2 < gp G /\ powm d2 (gq G) (gp G) = 1).
+Proof. intros A. apply remask_accept_iff in A. destruct A as (A & B & C & D & _). split; [|split; [|split]]; now apply check_element_member. Qed.
 
 Theorem decrypt_accept_iff H G c1 hj dj c r :
   decrypt_verify H G c1 hj dj c r = Accept <->
@@ -328,6 +347,7 @@ Qed.
 Theorem or_accept_iff H G y1 y2 g1 g2 c1 c2 r1 r2 :
   or_verify H G y1 y2 g1 g2 c1 c2 r1 r2 = Accept <->
   Z.abs r1 < gq G /\ Z.abs r2 < gq G /\ Z.abs c1 < gq G /\ Z.abs c2 < gq G /\
+  check_element G y1 = true /\ check_element G y2 = true /\
   exists a1 b1 a2 b2, mpz_powm y1 c1 (gp G) = Some a1 /\ mpz_powm g1 r1 (gp G) = Some b1 /\
     mpz_powm y2 c2 (gp G) = Some a2 /\ mpz_powm g2 r2 (gp G) = Some b2 /\
     (c1 + c2) mod gq G = H (or_hash_input G g1 y1 g2 y2 ((a1 * b1) mod gp G) ((a2 * b2) mod gp G)) mod gq G.
@@ -337,17 +357,22 @@ Proof.
     destruct (Z.leb_spec (gq G) (Z.abs r2)); [discriminate|].
     destruct (Z.leb_spec (gq G) (Z.abs c1)); cbn [orb]; [discriminate|].
     destruct (Z.leb_spec (gq G) (Z.abs c2)); [discriminate|].
+    destruct (check_element G y1); [|discriminate]. destruct (check_element G y2); [|discriminate]. cbn [andb negb].
     destruct (mpz_powm y1 c1 (gp G)) as [a1|]; [|discriminate].
     destruct (mpz_powm g1 r1 (gp G)) as [b1|]; [|discriminate].
     destruct (mpz_powm y2 c2 (gp G)) as [a2|]; [|discriminate].
     destruct (mpz_powm g2 r2 (gp G)) as [b2|]; [|discriminate].
     match goal with |- context [if ?a =? ?b then _ else _] => destruct (Z.eqb_spec a b) end; [|discriminate].
     intros _. repeat split; try lia. exists a1, b1, a2, b2. repeat split; auto.
-  - intros (A & B & C & D & a1 & b1 & a2 & b2 & E1 & E2 & E3 & E4 & E5).
+  - intros (A & B & C & D & Y1 & Y2 & a1 & b1 & a2 & b2 & E1 & E2 & E3 & E4 & E5).
     destruct (Z.leb_spec (gq G) (Z.abs r1)); [lia|]. destruct (Z.leb_spec (gq G) (Z.abs r2)); [lia|]. cbn [orb].
     destruct (Z.leb_spec (gq G) (Z.abs c1)); [lia|]. destruct (Z.leb_spec (gq G) (Z.abs c2)); [lia|]. cbn [orb].
-    rewrite E1, E2, E3, E4, E5. now rewrite Z.eqb_refl.
+    rewrite Y1, Y2. cbn [andb negb]. rewrite E1, E2, E3, E4, E5. now rewrite Z.eqb_refl.
 Qed.
+
+Corollary or_member_rules H G y1 y2 g1 g2 c1 c2 r1 r2 : or_verify H G y1 y2 g1 g2 c1 c2 r1 r2 = Accept ->
+  (0 < y1 < gp G /\ powm y1 (gq G) (gp G) = 1) /\ (0 < y2 < gp G /\ powm y2 (gq G) (gp G) = 1).
+Proof. intros A. apply or_accept_iff in A. destruct A as (_ & _ & _ & _ & Y1 & Y2 & _). split; now apply check_element_member. Qed.
 
 (* range rules as coded since fae6d38: all four transmitted values lie in (-q, q) *)
 Corollary or_range_rules H G y1 y2 g1 g2 c1 c2 r1 r2 : or_verify H G y1 y2 g1 g2 c1 c2 r1 r2 = Accept ->
